@@ -316,6 +316,9 @@ int vf::engine_main() {
     c20_type<int32_t, uint32_t>("int32_t", 4); c20_type<uint32_t, uint32_t>("uint32_t", 5);
     c20_type<int64_t, uint64_t>("int64_t", 6); c20_type<uint64_t, uint64_t>("uint64_t", 7);
     c20_type<float, uint32_t>("float", 8); c20_type<double, uint64_t>("double", 9);
+    // the integral types that are distinct from every fixed-width typedef on this ABI ("every integral value" is not only the <cstdint> names)
+    c20_type<long long, uint64_t>("long long", 10); c20_type<unsigned long long, uint64_t>("unsigned long long", 11);
+    c20_type<char, uint8_t>("char", 12); c20_type<wchar_t, uint32_t>("wchar_t", 13); c20_type<char16_t, uint16_t>("char16_t", 14); c20_type<char32_t, uint32_t>("char32_t", 15);
     return 0;
   }
   fprintf(stderr, "hash engine: unknown property %s\n", a.prop.c_str());
